@@ -23,6 +23,34 @@
 static h_tables_t T;
 static tsk_id_t msite[NM + 1], mnode[NM + 1];
 
+#ifdef H_NODE_REFS
+/* three populations (the middle one unreferenced) and two individuals, identified by 1-byte metadata tags;
+ * node 0 -> population 2, individual 1; node 1 -> population 0, individual 0 or none; the last node -> population 2,
+ * individual 0 (an internal node inside an individual); others: no references */
+static int node1_has_ind;
+static void
+h_pre_rows(tsk_table_collection_t *t)
+{
+    tsk_population_table_add_row(&t->populations, "P", 1);
+    tsk_population_table_add_row(&t->populations, "Q", 1);
+    tsk_population_table_add_row(&t->populations, "R", 1);
+    tsk_individual_table_add_row(&t->individuals, 0, NULL, 0, NULL, 0, "I", 1);
+    tsk_individual_table_add_row(&t->individuals, 0, NULL, 0, NULL, 0, "J", 1);
+    node1_has_ind = sym_choice("n1ind", 0, 1);
+}
+static tsk_id_t
+h_node_pop(int j)
+{
+    return j == 0 ? 2 : j == 1 ? 0 : j == NN - 1 ? 2 : -1;
+}
+static tsk_id_t
+h_node_ind(int j)
+{
+    return j == 0 ? 1 : j == 1 ? (node1_has_ind ? 0 : -1) : j == NN - 1 ? 0 : -1;
+}
+static const char pop_tag[3] = { 'P', 'Q', 'R' }, ind_tag[2] = { 'I', 'J' };
+#endif
+
 static void
 h_extra_rows(tsk_table_collection_t *t, h_tables_t *Tp)
 {
@@ -42,6 +70,8 @@ static tsk_id_t samples[MAXS];
 static int nsamples;
 
 /* presence of every input node at position x under the documented rule */
+static int keep_unary_ind_only; /* keep_unary_in_individuals: unary nodes are kept only inside an individual */
+
 static void
 presence(double x, int keep_unary, int keep_input_roots, int *present, tsk_id_t *P)
 {
@@ -69,7 +99,13 @@ presence(double x, int keep_unary, int keep_input_roots, int *present, tsk_id_t 
     for (u = 0; u < NN; u++) {
         present[u] = chosen[u] || c[u] >= 2;
         if (keep_unary && has[u]) {
+#ifdef H_NODE_REFS
+            if (!keep_unary_ind_only || h_node_ind(u) != TSK_NULL) {
+                present[u] = 1;
+            }
+#else
             present[u] = 1;
+#endif
         }
         if (keep_input_roots && has[u] && P[u] == TSK_NULL) {
             present[u] = 1;
@@ -97,11 +133,12 @@ check_options(tsk_table_collection_t *orig, tsk_treeseq_t *ts_in, tsk_flags_t op
     tsk_treeseq_t ts_out;
     tsk_id_t node_map[NN], P[NN], idmap2[NN];
     int ret, u, j, k, present[NN], anywhere[NN];
-    int keep_unary = !!(opt & TSK_SIMPLIFY_KEEP_UNARY), keep_roots = !!(opt & TSK_SIMPLIFY_KEEP_INPUT_ROOTS);
+    int keep_unary = !!(opt & (TSK_SIMPLIFY_KEEP_UNARY | TSK_SIMPLIFY_KEEP_UNARY_IN_INDIVIDUALS)), keep_roots = !!(opt & TSK_SIMPLIFY_KEEP_INPUT_ROOTS);
     int filter_nodes = !(opt & TSK_SIMPLIFY_NO_FILTER_NODES);
     double xs[2 * MAXE + 1];
     int nx = 0;
 
+    keep_unary_ind_only = !!(opt & TSK_SIMPLIFY_KEEP_UNARY_IN_INDIVIDUALS);
     ret = tsk_table_collection_copy(orig, &o, 0);
     sym_assume(ret == 0);
     ret = tsk_table_collection_simplify(&o, samples, (tsk_size_t) nsamples, opt, node_map);
@@ -167,6 +204,61 @@ check_options(tsk_table_collection_t *orig, tsk_treeseq_t *ts_in, tsk_flags_t op
             sym_assert(node_map[samples[k]] == k, "samples[k] becomes node k");
         }
     }
+#ifdef H_NODE_REFS
+    {
+        /* populations / individuals: with the filter exactly the referenced rows survive, in their original order, and
+         * every retained node still points at the row with the same tag; without it the tables and ids are untouched */
+        int used_p[3] = { 0, 0, 0 }, used_i[2] = { 0, 0 }, np = 0, ni = 0;
+        for (u = 0; u < NN; u++) {
+            if (node_map[u] != TSK_NULL) {
+                tsk_id_t mu = node_map[u], p = o.nodes.population[mu], q = o.nodes.individual[mu];
+                if (h_node_pop(u) != TSK_NULL) {
+                    used_p[h_node_pop(u)] = 1;
+                    sym_assert(p >= 0 && p < (tsk_id_t) o.populations.num_rows
+                                   && o.populations.metadata[o.populations.metadata_offset[p]] == pop_tag[h_node_pop(u)],
+                        "a retained node keeps its population");
+                } else {
+                    sym_assert(p == TSK_NULL, "a node without population stays without");
+                }
+                if (h_node_ind(u) != TSK_NULL) {
+                    used_i[h_node_ind(u)] = 1;
+                    sym_assert(q >= 0 && q < (tsk_id_t) o.individuals.num_rows
+                                   && o.individuals.metadata[o.individuals.metadata_offset[q]] == ind_tag[h_node_ind(u)],
+                        "a retained node keeps its individual");
+                } else {
+                    sym_assert(q == TSK_NULL, "a node without individual stays without");
+                }
+            }
+        }
+        for (j = 0; j < 3; j++) {
+            np += used_p[j];
+        }
+        for (j = 0; j < 2; j++) {
+            ni += used_i[j];
+        }
+        if (opt & TSK_SIMPLIFY_FILTER_POPULATIONS) {
+            sym_assert(o.populations.num_rows == (tsk_size_t) np, "exactly the referenced populations survive");
+            for (j = 0; j + 1 < (int) o.populations.num_rows; j++) {
+                sym_assert(o.populations.metadata[o.populations.metadata_offset[j]] < o.populations.metadata[o.populations.metadata_offset[j + 1]],
+                    "surviving populations keep their relative order");
+            }
+        } else {
+            sym_assert(o.populations.num_rows == 3, "without filter_populations the population table is untouched");
+        }
+        if (opt & TSK_SIMPLIFY_FILTER_INDIVIDUALS) {
+            sym_assert(o.individuals.num_rows == (tsk_size_t) ni, "exactly the referenced individuals survive");
+            for (j = 0; j + 1 < (int) o.individuals.num_rows; j++) {
+                sym_assert(o.individuals.metadata[o.individuals.metadata_offset[j]] < o.individuals.metadata[o.individuals.metadata_offset[j + 1]],
+                    "surviving individuals keep their relative order");
+            }
+        } else {
+            sym_assert(o.individuals.num_rows == 2, "without filter_individuals the individual table is untouched");
+        }
+        if (np < 3 && (opt & TSK_SIMPLIFY_FILTER_POPULATIONS)) {
+            sym_reach("population-dropped");
+        }
+    }
+#endif
     /* genotypes of the chosen samples are preserved at every retained site; dropped sites carried no variation */
     if (full && ret == 0 && NS > 0) {
         tsk_variant_t vin, vout;
@@ -317,6 +409,10 @@ main_c04(void)
 #endif
 #ifdef ROOTS_PASS
     check_options(&t, &ts, TSK_SIMPLIFY_FILTER_SITES | TSK_SIMPLIFY_KEEP_INPUT_ROOTS, 1);
+#endif
+#ifdef H_NODE_REFS
+    check_options(&t, &ts, TSK_SIMPLIFY_FILTER_SITES | TSK_SIMPLIFY_FILTER_POPULATIONS | TSK_SIMPLIFY_FILTER_INDIVIDUALS | TSK_SIMPLIFY_KEEP_UNARY_IN_INDIVIDUALS, 0);
+    check_options(&t, &ts, TSK_SIMPLIFY_FILTER_SITES | TSK_SIMPLIFY_FILTER_INDIVIDUALS, 0);
 #endif
 #ifndef DEFAULT_OPTIONS_ONLY
     check_options(&t, &ts, TSK_SIMPLIFY_FILTER_SITES | TSK_SIMPLIFY_KEEP_UNARY, 0);
